@@ -148,6 +148,9 @@ def run(repo, chk):
         ok = ok and 'self.items = items' in src(c)
         chk.expect(ok, 'C13.B3', f'{cls}.lines', 'items rendered in order, comma separated, each with bytes()', ASM)
 
+    from .c09 import rendering
+    rendering(repo, chk, 'C13.B3')
+
     # ---------------- B1 ---------------------------------------------------------------
     gen = it.load(GEN)
     CG = gen['CodeGen']
